@@ -120,6 +120,17 @@ CHECKS = {
              'decimal-context state. Complete within the alphabets.',
         note='trusted: mc/model/exactnum.py (cross-checked against decimal on 900 operand pairs during development)',
         design='4/C08'),
+    'C04': dict(
+        engine='E4+E3',
+        technique='exhaustive product of a numeric operand alphabet x every route to an arithmetic operation, then BFS over chains on '
+                  'abstract values; type / digit-count / time invariant on every result',
+        text='45 operands of every host-suppliable numeric type (incl. 2^200, 41-digit and huge-exponent Decimals, numeric strings, a '
+             'string and lists) x 37 routes (operators, compound assignments in five target forms, numeric builtins, lambdas): all '
+             'ordered pairs are executed, then chains of operations to depth 2/3 over abstract values; * ** *= must yield a <= 28-digit '
+             'Decimal or raise, every numeric result must respect max(28, 1 + widest argument), nothing may repeat strings/lists, and '
+             'no operation may run longer than 2 s (huge exponents in a killable child).',
+        note='trusted: the digit-size measure stated in the evidence assumptions; watchdog timing (2 s, far above normal cost)',
+        design='4/C04'),
 }
 
 NOT_YET = {}
